@@ -37,7 +37,9 @@ PY = sys.executable
 
 COLLIDING = ["Client", "Server", "PACKET", "Net", "Map", "Pub", "Data", "Encrypt", "Protocol", "Sys", "Pyramid", "PyThing", "XmlDoc", "Init", "Generated", "Eolib",
              "Globals", "Str", "Len", "Range", "Set", "Open", "Bytes", "Filter", "Sorted", "Getattr", "Vars", "Dir", "Print",
-             "Object", "Tuple", "Zip", "Isinstance", "Setattr", "Hasattr", "Any", "All", "Iter", "Next", "Super", "List", "Dict", "Type", "Int"]
+             "Object", "Tuple", "Zip", "Isinstance", "Setattr", "Hasattr", "Any", "All", "Iter", "Next", "Super", "List", "Dict", "Type", "Int",
+             # names the generated modules import for their own use
+             "Sequence", "Iterable", "Optional", "Cast", "Annotations", "Mapping", "Callable", "Union", "Enum", "IntEnum"]
 PATHS = ["", "net", "net/client", "net/server", "map", "pub", "pub/server"]
 FORBIDDEN = {"": {"net", "map", "pub"}, "net": {"client", "server"}, "pub": {"server"}}
 N_COLLISION = {"quick": 7, "thorough": 14}
